@@ -2,24 +2,56 @@
 From Unimock Require Import Model.RunConc Spec.Chain Proofs.Core Proofs.C02 Proofs.C14 Proofs.Conc.
 Open Scope N_scope.
 
-(* for EVERY schedule of any threads: a single-use slot hands its value out at
-   most once (the log of deliveries has no duplicates) and it is handed out iff
-   the slot is empty afterwards; every other request ends in the
-   CannotReturnValueMoreThanOnce error (Model/Conc.v [exec], PLockSlot) *)
-Theorem C12_single_use_delivered_at_most_once : forall info A accepts debug_args cfg sched ths0,
-  let g := fst (run_sched info A accepts debug_args cfg sched (init_glob, ths0)) in
+(* for EVERY schedule of any threads: a single-use value is handed out at most once (the log of deliveries has no
+   duplicates) and only by emptying its slot; every other request ends in the CannotReturnValueMoreThanOnce error
+   (Model/Conc.v [exec], PLockSlot) *)
+Theorem C12_single_use_delivered_at_most_once : forall info A accepts debug_args cfg sched callss,
+  let g := fst (run_sched info A accepts debug_args cfg sched
+                  (init_glob, map (fun cs => advance info A accepts debug_args cfg cs []) callss)) in
   NoDup (g_deliv g) /\
-  forall m i j, In (m, i, j) (g_deliv g) <-> taken (g_state g) m i j = true.
-Proof. intros. exact (single_use_once info A accepts debug_args cfg sched ths0). Qed.
+  forall m i j, In (m, i, j) (g_deliv g) -> taken (g_state g) m i j = true.
+Proof. intros. exact (single_use_once info A accepts debug_args cfg sched callss). Qed.
 
-(* a request for an emptied slot is an error, never a value; a request for a full slot empties it *)
+(* ... and it is not lost in a race either: a value made of SEVERAL single-use slots (a tuple with a borrowed element and
+   two or more owned ones; the slots are emptied one after the other, not atomically) is owned by the request that
+   emptied its first slot.  In every reachable state, per value: deliveries + requests that are between two of its slots
+   = 1 if its first slot is empty, 0 otherwise; and the slots such a request still has to take are full *)
+Theorem C12_single_use_value_has_one_owner : forall info A accepts debug_args cfg sched callss,
+  let st := run_sched info A accepts debug_args cfg sched
+              (init_glob, map (fun cs => advance info A accepts debug_args cfg cs []) callss) in
+  (forall m i j, kcount (m, i, j) (g_deliv (fst st)) + holders A (m, i, j) (snd st) =
+                 if taken (g_state (fst st)) m i j then 1 else 0) /\
+  (forall tid th m a i p j v l, nth_opt (snd st) tid = Some th -> t_pend th = Some (PLockLeaf m a i p j v l) ->
+     (1 <= l <= mi_more_leaves (info m))%nat /\
+     forall l', (l <= l')%nat -> leaf_taken (g_leaf (fst st)) (m, i, j, l') = false) /\
+  (forall m i j l, leaf_taken (g_leaf (fst st)) (m, i, j, l) = true -> taken (g_state (fst st)) m i j = true).
+Proof.
+  intros info A accepts debug_args cfg sched callss.
+  exact (single_use_one_owner_explicit info A accepts debug_args cfg sched callss).
+Qed.
+
+(* so, when all requests have ended, every value whose slot was emptied was handed to a caller *)
+Theorem C12_raced_value_is_not_lost : forall info A accepts debug_args cfg sched callss,
+  let st := run_sched info A accepts debug_args cfg sched
+              (init_glob, map (fun cs => advance info A accepts debug_args cfg cs []) callss) in
+  all_done A (snd st) = true ->
+  forall m i j, taken (g_state (fst st)) m i j = true -> In (m, i, j) (g_deliv (fst st)).
+Proof. intros info A accepts debug_args cfg sched callss. exact (single_use_not_lost info A accepts debug_args cfg sched callss). Qed.
+
+(* a request for an emptied slot is an error, never a value; a request for a full slot empties it and either returns
+   the value or goes on to the value's further slots *)
 Theorem C12_slot_request : forall info A accepts debug_args cfg g m a i p j v,
   exec info A accepts debug_args cfg g (PLockSlot m a i p j v) =
   if taken (g_state g) m i j
   then (g, NPend (PLockErr (ECannotReturnValueMoreThanOnce (call_of A debug_args m a) (debug_pattern m i p))), LSlot m i j)
-  else ({| g_state := set_taken (g_state g) (take (taken (g_state g)) m i j); g_order := g_order g;
-           g_log := g_log g; g_deliv := (g_deliv g ++ [(m, i, j)])%list |},
-        NDone (ActReturn (RVTag v)), LSlot m i j).
+  else match mi_more_leaves (info m) with
+       | O => ({| g_state := set_taken (g_state g) (take (taken (g_state g)) m i j); g_order := g_order g;
+                  g_log := g_log g; g_deliv := (g_deliv g ++ [(m, i, j)])%list; g_leaf := g_leaf g |},
+               NDone (ActReturn (RVTag v)), LSlot m i j)
+       | S _ => ({| g_state := set_taken (g_state g) (take (taken (g_state g)) m i j); g_order := g_order g;
+                    g_log := g_log g; g_deliv := g_deliv g; g_leaf := g_leaf g |},
+                 NPend (PLockLeaf m a i p j v 1), LSlot m i j)
+       end.
 Proof. reflexivity. Qed.
 
 (* sequential form (C02): first request returns the value, later ones the error *)
